@@ -8,12 +8,16 @@ import (
 	"io"
 	"math/rand"
 	"os"
+	"os/exec"
 	"path/filepath"
 	"sort"
+
+	rfs "github.com/xakep666/ps3netsrv-go/pkg/fs"
 
 	"verif/host"
 	"verif/iso"
 	"verif/model"
+	"verif/spyfs"
 	"verif/tree"
 	"verif/wire"
 	"verif/worker"
@@ -290,33 +294,54 @@ func C09(e *Env) {
 	// 2..8 TiB): refusing to create the image is fine; an image that is created must still be one byte
 	// string: non-negative size, whole sectors, at least as long as its members, the same bytes at
 	// the same offset whatever the read started at
-	for hi, sizes := range [][]int64{{2 << 40, 2 << 40}, {4 << 40}, {4<<40 - 198656}, {8<<40 + 100, 5000}, {3 << 40, 3 << 40, 3 << 40}, {3 << 40}} {
+	for hi, sizes := range [][]int64{{2 << 40, 2 << 40}, {4 << 40}, {4<<40 - 198656}, {8<<40 + 100, 5000}, {3 << 40, 3 << 40, 3 << 40}, {3 << 40}, {1<<63 - 1}, {1<<63 - 2048, 4096}} {
 		name := fmt.Sprintf("huge%d", hi)
-		root := filepath.Join(parent, name)
-		must(os.MkdirAll(root, 0o755))
-		var sum int64
-		okFS := true
-		for i, sz := range sizes {
-			f, err := os.Create(filepath.Join(root, fmt.Sprintf("m%d.bin", i)))
-			must(err)
-			if err := f.Truncate(sz); err != nil {
-				okFS = false // this file system cannot hold such a file
+		// ext4 stops at 16 TiB; tmpfs takes any size: the largest members are tried there
+		hparent, sum, okFS := parent, int64(0), false
+		for _, base := range []string{parent, "/dev/shm"} {
+			if base != parent {
+				d, err := os.MkdirTemp(base, "verif-c09-")
+				if err != nil {
+					continue
+				}
+				defer os.RemoveAll(d)
+				hparent = d
 			}
-			f.WriteAt(bytes.Repeat([]byte{byte('A' + i)}, 6144), 2048)
-			f.Close()
-			sum += sz
+			root := filepath.Join(hparent, name)
+			must(os.MkdirAll(root, 0o755))
+			sum, okFS = 0, true
+			for i, sz := range sizes {
+				f, err := os.Create(filepath.Join(root, fmt.Sprintf("m%d.bin", i)))
+				must(err)
+				if err := f.Truncate(sz); err != nil {
+					okFS = false // this file system cannot hold such a file
+				}
+				f.WriteAt(bytes.Repeat([]byte{byte('A' + i)}, 6144), 2048)
+				f.Close()
+				if sum+sz < sum {
+					sum = 1<<63 - 1
+				} else {
+					sum += sz
+				}
+			}
+			if okFS {
+				break
+			}
+			os.RemoveAll(root)
 		}
+		root := filepath.Join(hparent, name)
 		if !okFS {
 			run.Count("huge_trees_not_creatable_here", 1)
-			os.RemoveAll(root)
 			continue
 		}
 		run.Eval(1)
 		wit := map[string]any{"member_sizes": sizes}
-		v, _, err, perr := libOpenImage(parent, name, false, 0)
+		v, _, err, perr := libOpenImageCapped(hparent, name)
 		switch {
 		case perr != nil:
-			run.Violate("panic", "huge-tree:"+panicClass(perr), fmt.Sprintf("[members %v] NewVirtualISO panicked: %v", sizes, perr), wit)
+			// creation did not come to an end (crash / out of memory): that is C04's subject (its check
+			// runs the same probe); there is no image whose reads could be judged here
+			run.Count("huge_trees_creation_abnormal_left_to_C04", 1)
 		case err != nil:
 			run.Sig("huge tree %d TiB: creation refused", sum>>40)
 		default:
@@ -440,4 +465,37 @@ func genOpsISO(r *rand.Rand, size int64, n int) []viewOp {
 		}
 	}
 	return ops
+}
+
+// libOpenImageCapped creates the image in a child process with an address-space limit: a member whose
+// size makes the generator allocate without bound must not take the check (or the machine) down.
+// It returns a view only when the child reports that creation succeeds.
+func libOpenImageCapped(parent, name string) (v *rfs.VirtualISO, spy *spyfs.Spy, err error, perr any) {
+	self, _ := os.Executable()
+	cmd := exec.Command("/bin/sh", "-c", "ulimit -v 6291456; exec \"$0\" \"$@\"", self, "probe-image", parent, name)
+	out, cerr := cmd.CombinedOutput()
+	switch {
+	case cerr == nil && bytes.Contains(out, []byte("CREATED")):
+		return libOpenImage(parent, "/"+name, false, 0)
+	case bytes.Contains(out, []byte("REFUSED")):
+		return nil, nil, fmt.Errorf("%s", bytes.TrimSpace(out)), nil
+	default:
+		return nil, nil, nil, fmt.Sprintf("image creation in a child process (6 GiB cap) ended abnormally: %v: %s", cerr, firstLines(string(out), 4))
+	}
+}
+
+// ProbeImage is the child side of libOpenImageCapped.
+func ProbeImage(parent, name string) {
+	v, _, err, perr := libOpenImage(parent, "/"+name, false, 0)
+	switch {
+	case perr != nil:
+		fmt.Println("PANIC", perr)
+		os.Exit(2)
+	case err != nil:
+		fmt.Println("REFUSED", err)
+	default:
+		st, _ := v.Stat()
+		fmt.Println("CREATED", st.Size())
+		v.Close()
+	}
 }
